@@ -834,14 +834,15 @@ class C01(core.Check):
     level_text = ("Proved in Coq (render_contract_partial, by structural induction, arbitrary depth, every size >= 1, both focus "
                   "values): for trees built from leaves that satisfy the contract themselves, AttrMap / LineBox delegation, "
                   "BoxAdapter, Padding (given / pack / relative width), Filler (pack / given / relative height) Pile (given / "
-                  "pack / weight items) and Frame (header / footer, any focus part), BOX sizing yields exactly the requested columns and rows and FLOW sizing the requested "
+                  "pack / weight items), Frame (header / footer, any focus part) and Overlay with a given or relative width "
+                  "(packed / given / relative height), BOX sizing yields exactly the requested columns and rows and FLOW sizing the requested "
                   "columns and exactly rows() rows, all content rows have the canvas width, the cursor is inside, rows() >= 1 and "
-                  "pack((c,)) agrees with rows() - unless the model reports one of two explicit markers: a widget was handed a "
-                  "size with a component <= 0 (no room; such probes are not judged) or a widget returned a canvas whose cursor "
-                  "was trimmed away (a known finding).  PARTIAL: Columns (hence LineBox), Overlay, clip Padding and all FIXED sizing "
-                  "are modelled, extracted and compared but NOT proved; the full statement (render_contract_full) is refuted in Coq by "
-                  "two witnesses that replay on the implementation (fixed Padding: pack(()) != render(()); Overlay with packed "
-                  "height asks rows() at the wrong width).  The leaf contract is a hypothesis (leaves_ok), discharged only by the "
+                  "pack((c,)) agrees with rows() - unless the model reports its one explicit marker: a widget was handed a "
+                  "size with a component <= 0 (no room; such probes are not judged).  The cursor clause is proved outright since "
+                  "the canvas trimming operations drop a cursor they cut away (aa8a06a).  PARTIAL: Columns (hence LineBox), Overlay "
+                  "with width='pack', clip Padding and all FIXED sizing are modelled, extracted and compared but NOT proved; the full "
+                  "statement (render_contract_full) is refuted in Coq by a witness that replays on the implementation (fixed "
+                  "Padding: pack(()) != render(()), known finding).  The leaf contract is a hypothesis (leaves_ok), discharged only by the "
                   "oracle on the real leaves (Text, Edit, Divider, SolidFill, Button, CheckBox, RadioButton, ProgressBar, BigText, "
                   "BarGraph, SelectableIcon, ListBox, GridFlow, Scrollable/ScrollBar).  Everything else - all nine constructors, the "
                   "three sizing modes, sizing() flags, rows(), pack(), render() sizes and cursors, which error is raised - is tied "
@@ -853,7 +854,7 @@ class C01(core.Check):
                   "and trimmed-away cursors.  Hypotheses: WellFormed (wf_b: every child supports the sizing mode its container "
                   "will ask of it - misuse is neither generated nor judged); leaves_ok; integer weights.  Probes in which any "
                   "widget is handed a size with a component <= 0 are compared with the model (which predicts them) but not judged "
-                  "by the oracle.  GridFlow is history-dependent (known finding), trees containing it are judged but not compared.")
+                  "by the oracle.")
     rule = ("one case = one random WellFormed widget tree (depth <= 5; Pile/Columns items given/pack/weight, box_columns, "
             "dividechars, min_width, focus positions; Padding/Filler/Overlay align, valign, given/pack/relative/clip sizes, min "
             "sizes, margins; Frame parts and focus part; LineBox titles; 17 leaf kinds) x one of utf-8/ascii/euc-jp x 1-3 random "
@@ -869,7 +870,7 @@ class C01(core.Check):
         "WellFormed trees only (wf_b, mirrored by wf_node): e.g. ListBox items and Frame header/footer are flow widgets, Frame body / BoxAdapter child / given-or-relative Filler child are box widgets, weighted Pile children support every mode the Pile itself reports",
         "every leaf satisfies the contract itself (leaves_ok) - tested by the oracle, not proved",
         "probes in which a widget receives a size with a component <= 0 are not judged (the model marks them EStarved)",
-        "integer weights; GridFlow-containing trees are not compared with the model (history-dependent pack())",
+        "integer weights",
     ]
 
     def __init__(self):
@@ -1172,7 +1173,29 @@ class C01(core.Check):
             case["why"] = None
         return case
 
+    def systematic_cases(self):
+        """Small exhaustive scopes for the arithmetic the random trees hit only now and then: weighted Columns at
+        every narrow width, weighted box Piles at every small height, a Filler scrolling to each cursor row."""
+        import itertools
+        t = lambda s: ["text", s, "left", "space"]          # noqa: E731
+        weights = [1, 2, 5]
+        for n in (2, 3):
+            for ws in itertools.product(weights, repeat=n):
+                for mw, d in ((1, 0), (1, 1), (2, 0), (2, 1)):
+                    items = [[["w", w], t("ab cd"[: 2 + i]), 0] for i, w in enumerate(ws)]
+                    yield {"tree": ["cols", items, d, mw, 0], "enc": "utf-8", "mode": "corr",
+                           "probes": [[1, c, 0, 0] for c in range(1, 13)]}
+        for ws in itertools.product(weights, repeat=3):
+            items = [[["w", w], ["solid", "x"]] for w in ws] + [[["p"], t("ab cd")], [["g", 2], ["solid", "."]]]
+            yield {"tree": ["pile", items, 0], "enc": "utf-8", "mode": "corr",
+                   "probes": [[2, 3, r, 0] for r in range(1, 13)]}
+        for pos in range(0, 10, 2):
+            for valign in ("top", "middle", "bottom"):
+                yield {"tree": ["fill", ["edit", "", "a\nb\nc\nd\ne", "space", "left", pos], valign, "pack", None, 0, 0],
+                       "enc": "utf-8", "mode": "corr", "probes": [[2, 4, r, 1] for r in range(1, 7)]}
+
     def cases(self, rng, tier):
+        yield from self.systematic_cases()
         n = 1500 if tier == "quick" else 15000
         made = 0
         attempts = 0
